@@ -74,7 +74,7 @@ Proof.
     rewrite py_slice_from_nat.
     unfold alloc_implements, set_spec_inherit, set_spec_declared, store_super_cache, spec_inherit, spec_declared, cache_of.
     cbn [st_cache st_decl st_synth st_regs]. rewrite K.
-    rewrite classes_of_RCls, !update_nth_last. cbn [sy_bases sy_inherit sy_declared option_map]. reflexivity.
+    rewrite classes_of_RCls, !update_nth_last. cbn [sy_bases sy_inherit sy_declared sy_dspecs option_map fst snd]. reflexivity.
   - cbn [nget].
     destruct (mro_of E T) as [mro|]; [|reflexivity].
     destruct (next_super_class mro C) as [nxt|]; [|reflexivity].
@@ -82,7 +82,7 @@ Proof.
     rewrite py_slice_from_nat.
     unfold alloc_implements, set_spec_inherit, set_spec_declared, store_super_cache, spec_inherit, spec_declared, cache_of.
     cbn [st_cache st_decl st_synth st_regs]. rewrite nget_nset_eq, nset_nset.
-    rewrite classes_of_RCls, !update_nth_last. cbn [sy_bases sy_inherit sy_declared option_map]. reflexivity.
+    rewrite classes_of_RCls, !update_nth_last. cbn [sy_bases sy_inherit sy_declared sy_dspecs option_map fst snd]. reflexivity.
 Qed.
 
 (* ---- Implements.changed (its own part) *)
@@ -97,14 +97,16 @@ Proof. reflexivity. Qed.
 (* ---- the super branches of implementedBy / providedBy (Python) *)
 Lemma gen_py_implementedBy_eq E st a : gen_py_implementedBy E st a = py_implementedBy E st a.
 Proof.
-  destruct a as [j|C j]; unfold gen_py_implementedBy; cbn [is_super_arg psuper_of py_implementedBy]; [reflexivity|].
-  apply gen_implementedBy_super_eq.
+  destruct a as [j|C j|C T|C]; unfold gen_py_implementedBy;
+    cbn [is_super_arg psuper_of py_implementedBy implementedBy_rest]; try reflexivity;
+    apply gen_implementedBy_super_eq.
 Qed.
 
 Lemma gen_py_providedBy_eq E st a : gen_py_providedBy E st a = py_providedBy E st a.
 Proof.
-  destruct a as [j|C j]; unfold gen_py_providedBy; cbn [is_super_arg py_providedBy providedBy_rest]; [reflexivity|].
-  apply gen_py_implementedBy_eq.
+  destruct a as [j|C j|C T|C]; unfold gen_py_providedBy;
+    cbn [is_super_arg py_providedBy providedBy_rest py_implementedBy]; try reflexivity;
+    apply gen_py_implementedBy_eq.
 Qed.
 
 (* ---- adapter.py *)
